@@ -229,6 +229,8 @@ class Run(object):
         self.nontrivial = False
         self.dirty = False         # a state-changing op or a fired fault since the previous checked read
         self.after_failed_read = False
+        self.has_psd = False       # a computation has succeeded on this object (harness-side knowledge)
+        self.sides_expect = None
         self.plane = FaultPlane(self.cls)
         if install_plane:
             self.plane.install()
@@ -240,6 +242,10 @@ class Run(object):
             self.init_error = type(e).__name__
         if self.plane.missing:
             self.bump("probe:kernel_seam_missing")
+        # what the caller assigned and the library accepted.  Constructor arguments other than the data are
+        # not tracked: the statement is about attribute assignments (and the pinned constructor silently
+        # drops its `detrend` argument, which is not a staleness matter).
+        self.assigned = {"data": np.array(dec_data(cfg["data"]))}
 
     def close(self):
         self.plane.remove()
@@ -312,6 +318,14 @@ class Run(object):
         pre_state = self.abstate()
         fired0 = self.plane.fired
         calls0 = self.plane.calls[0]
+        before_attr = None
+        if k == "set" and op["attr"] != "sides":
+            try:
+                before_attr = getattr(p, op["attr"])
+                if op["attr"] == "data":
+                    before_attr = np.array(before_attr)
+            except Exception:
+                before_attr = None
         try:
             val = self._apply(op)
             outcome = "ok"
@@ -395,6 +409,60 @@ class Run(object):
                 self.last_psd = None
                 self.reassigned = []
 
+        # ---- a rejected assignment is a no-op on the attribute it was meant for -------------------
+        if viol is None and k == "set" and exc is not None and not fired and recomputed == 0 \
+                and op["attr"] != "sides" and before_attr is not None:
+            try:
+                after_attr = getattr(p, op["attr"])
+                same = (np.array_equal(np.asarray(after_attr), before_attr) if op["attr"] == "data"
+                        else after_attr == before_attr)
+            except Exception:
+                same = False
+            self.bump("reject_clean_checked")
+            if not same:
+                viol = Violation("reject_clean", idx, "the assignment %s=%r was rejected (%s) but the object now "
+                                 "reports %r instead of %r" % (op["attr"], op["value"] if op["attr"] != "data" else "<data>",
+                                                               type(exc).__name__, after_attr if op["attr"] != "data" else "<data>",
+                                                               before_attr if op["attr"] != "data" else "<data>"))
+
+        # ---- sides assigned on an object that holds a PSD, directly followed by a read: the read returns
+        #      that representation (the label must not flip back under the reader's feet) ---------------
+        if k == "set" and op["attr"] == "sides" and exc is None and self.has_psd:
+            v_ = op["value"]
+            self.sides_expect = (("twosided" if p.datatype == "complex" else "onesided") if v_ == "default" else v_)
+            if self.sides_expect == "onesided" and p.datatype == "complex":
+                self.sides_expect = None       # undefined representation: nothing is demanded of it
+        elif k == "read" and exc is None and not fired and self.sides_expect is not None:
+            self.bump("sides_sticks_checked")
+            if viol is None and p.sides != self.sides_expect:
+                viol = Violation("sides_sticks", idx, "sides was assigned %r on an object holding a PSD and psd was read "
+                                 "next, but the read left sides=%r (the requested representation was dropped)"
+                                 % (self.sides_expect, p.sides))
+            self.sides_expect = None
+        else:
+            self.sides_expect = None
+        if k in ("read", "call", "run", "conv", "power") and exc is None and not fired:
+            self.has_psd = True
+
+        # ---- an accepted assignment sticks: the object never rewrites an attribute by itself -----
+        if k == "set" and exc is None and op["attr"] != "sides":
+            a = op["attr"]
+            if a == "data":
+                self.assigned[a] = np.array(dec_data(op["value"]))
+            elif a == "NFFT":
+                if isinstance(op["value"], int):
+                    self.assigned[a] = op["value"]
+                else:
+                    self.assigned.pop(a, None)
+            elif a == "ar_order" and op["value"] is None:
+                pass                                   # documented: None leaves the order unchanged
+            elif a in ("window", "detrend"):
+                pass                                   # names: an implementation may normalise aliases
+            else:
+                self.assigned[a] = op["value"]
+        if viol is None:
+            viol = self._check_drift(idx)
+
         # ---- df invariant after every operation --------------------------
         if viol is None:
             try:
@@ -415,6 +483,29 @@ class Run(object):
         if viol is not None:
             self.violation = viol
         return viol
+
+    def _check_drift(self, idx):
+        """`attr_drift`: "the same final attribute values" are the values the caller assigned.  An object
+        that overwrites one of them behind the caller's back (e.g. a kernel working in place on the stored
+        data) would make the reference, which is built from what the object reports, wrong in the same way."""
+        p = self.p
+        for a in sorted(self.assigned):
+            want = self.assigned[a]
+            try:
+                got = getattr(p, a)
+            except Exception as e:
+                return Violation("attr_drift", idx, "reading %s raised %s" % (a, type(e).__name__))
+            if a == "data":
+                g = np.asarray(got)
+                same = g.shape == want.shape and np.iscomplexobj(g) == np.iscomplexobj(want) and bool(
+                    np.all((g == want) | ((g != g) & (want != want))))
+            else:
+                same = (got == want) and (type(got) is type(want) or not isinstance(want, bool))
+            if not same:
+                return Violation("attr_drift", idx, "%s was assigned %s but the object now reports %s" % (
+                    a, "<%d values>" % len(want) if a == "data" else repr(want),
+                    "different values" if a == "data" else repr(got)))
+        return None
 
     def _check_against_reference(self, rec):
         idx, k, op, exc, val, snap, query, want_pristine = rec
@@ -1078,7 +1169,10 @@ class MultiRun(object):
 
     @property
     def transitions(self):
-        return set().union(*[a.transitions for a in self.actors])
+        t = set().union(*[a.transitions for a in self.actors])
+        # the interleaving this run realised: which object acted at each step, by class
+        t.add(("schedule", tuple(a.cls for a in self.actors), tuple(o.get("o", 0) for o in self.ops)))
+        return t
 
     @property
     def checked_reads(self):
